@@ -15,7 +15,7 @@ structure Probe where
   bareEmpty : Bool       -- stripLabels(selector) prints as ""
   baseErr : Bool         -- count(bare metric) range query failed
   baseRanges : Nat       -- number of time ranges of count(bare metric) over the lookback window
-  producer : Bool        -- an error-free recording rule of the checked set records the bare metric
+  producer : Bool        -- an error-free recording rule of the checked set, not being removed (fix 8169966), records the bare metric
   otherServers : Bool    -- checkOtherServer says "report" (true when no other server has the series either)
   ignored : Bool         -- ignoreMetrics matches the bare metric (textAndSeverity lowers to Warning)
 deriving DecidableEq, Repr, Inhabited
